@@ -239,7 +239,8 @@ def check_init_cdb(prog, run):
     file = prog.rel(f.module)
     exc_name = "OpcodeException"
     bad = []
-    for v in range(256):
+    # (0..255 are the operation codes; the values around them are not codes at all and have no CDB length either)
+    for v in list(range(256)) + list(range(256, 288)) + [0x1FF, 0x3A0, 0x7FF] + list(range(-256, 0)):
         def thunk(v=v):
             op = I.instantiate(opcls, ["X", v, {}], {}, None, _F())
             return I.call_function(f, [op], {}, None, _F())
@@ -247,7 +248,7 @@ def check_init_cdb(prog, run):
         if len(res) != 1:
             raise AnalysisError("init-cdb-forked", "init_cdb(%#x) has %d paths" % (v, len(res)))
         p = res[0]
-        want = ref.cdb_length(v)
+        want = ref.cdb_length(v) if 0 <= v <= 0xFF else None
         if p.returned:
             got = p.value.length if isinstance(p.value, Buf) else None
             desc = got
@@ -255,7 +256,7 @@ def check_init_cdb(prog, run):
             c = p.raised.exc_class()
             got = "raise:" + (c.name if c else "?")
             desc = got
-        construct = "init_cdb(%#04x)" % v
+        construct = "init_cdb(%s)" % (("%#04x" % v) if v >= 0 else v)
         if want is None:
             if got == "raise:" + exc_name:
                 run.ok("cdb-length-group", construct, {"opcode": v, "outcome": desc}, nontrivial=True)
